@@ -32,7 +32,8 @@ import Reduino.GenOb.Ops
   (statements unchanged: `InF`/`InF2`, `tr`/`tr2` and both semantics gained the constructor).
   Text (W13): `Val.str` / `Ty.string` (the Arduino `String`), string literals of printable ASCII (emitted through
   `_escape_string_literal`, `Esc.escape`), string-typed names (global `String` declarations, default `""`, assignment, tuple assignment,
-  promotion), conditional expressions over strings, and `mon.write` of a string-typed expression; a serial line (`Ev.write`) now carries
+  promotion), conditional expressions over strings, `str(e)` of an int- or string-typed expression (`String(e)`), `+` on two strings
+  (a literal left operand is emitted as `String("…")`; `s += e`), and `mon.write` of a string-typed expression; a serial line (`Ev.write`) now carries
   the printed TEXT, an int printing in decimal on both sides (`toString`, `Val.text`; bools stay out of `write`).  Python's TypeErrors
   (`"a" + 1`, `-"a"`, `"a" < 1`, `range("a")`, `sleep("a")`) are `Err.typeError`; `Expr.wt` keeps strings out of conditions, counts,
   arithmetic and comparisons (the theorems' statements are textually unchanged; the store relation of `expr_preserved` says `Ty.holds`).
@@ -315,6 +316,34 @@ example :
           "Serial.println(s);"]) := by
   intro p
   exact ⟨by decide +kernel, by rfl, _, rfl, by rfl, by decide +kernel, by decide +kernel⟩
+
+/-- non-vacuity (W13, increment 2): `str(e)` of an int-typed expression and `+` on strings — a literal LEFT operand is emitted as
+    `String("…")`, `s += "!"` becomes `s = (s + "!")`; in the fragment, accepted, same lines on both sides -/
+example :
+    let p : Prog :=
+      { pre := .seq (.assign "n" (.int 4)) (.seq (.assign "s" (.bin .add (.str "n=") (.toStr (.var "n")))) (.write (.var "s"))),
+        body := some (.seq (.aug "s" .add (.str "!")) (.seq (.aug "n" .add (.int 1))
+                  (.write (.bin .add (.bin .add (.var "s") (.toStr (.bin .mul (.var "n") (.int 2)))) (.str ";"))))) }
+    InF p = true ∧ Py.run p 2 50 = .ok [.write "n=4", .write "n=4!10;", .write "n=4!!12;"] ∧
+      (∃ c, tr p = .ok c ∧ C.run c 2 50 = .ok [.write "n=4", .write "n=4!10;", .write "n=4!!12;"] ∧
+        c.setup.lines = ["s = (String(\"n=\") + String(n));", "Serial.println(s);"] ∧
+        c.loop.lines = ["s = (s + \"!\");", "n = (n + 1);", "Serial.println(((s + String((n * 2))) + \";\"));"]) := by
+  intro p
+  exact ⟨by decide +kernel, by rfl, _, rfl, by rfl, by decide +kernel, by decide +kernel⟩
+
+/-- `("a" if c else "b") + "c"` is emitted as `((c ? "a" : "b") + "c")`, a sum of two `const char*`, which no C++ compiler accepts:
+    outside the fragment (`Expr.binTyOk`); with a `String` on the right it is inside -/
+example :
+    let bad : Prog := { pre := .seq (.assign "n" (.int 1)) (.write (.bin .add (.ite (.cmp .gt (.var "n") (.int 0)) (.str "a") (.str "b")) (.str "c"))),
+                        body := none }
+    let good : Prog := { pre := .seq (.assign "n" (.int 1)) (.write (.bin .add (.ite (.cmp .gt (.var "n") (.int 0)) (.str "a") (.str "b")) (.toStr (.var "n")))),
+                         body := none }
+    InF bad = false ∧ InF good = true ∧ Py.run good 0 50 = .ok [.write "a1"] ∧ (∃ c, tr good = .ok c ∧ C.run c 0 50 = .ok [.write "a1"]) := by
+  intro bad good
+  exact ⟨by decide +kernel, by decide +kernel, by rfl, _, rfl, by rfl⟩
+
+/-- `str()` of a bool is kept out: CPython prints `True`, `String(true)` is `1` -/
+example : InF { pre := .seq (.assign "f" (.bool true)) (.write (.toStr (.var "f"))), body := none } = false := by decide +kernel
 
 /-- Python's TypeErrors are errors of the model: `"a" + 1`; a string in arithmetic position is outside `InF` -/
 example :
